@@ -29,7 +29,7 @@ class C11(vlib.Check):
     rule = ('product of alignment {none,<,>} x pad {none,_*,0,_*0,0_*,_space} x # x + x class {none,d,x,X,o,b} (432 flag '
             'sets, flags also emitted in a second order) x width {0,len-1,len,len+1,len+sign+prefix-1,len+sign+prefix,'
             'len+sign+prefix+1,40} x values drawn from {0,+-1,+-radix^k+-1,min,max} of i8,u8,i16,u16,i32,u32,long,ulong,'
-            'long long,ulong long (quick: 10 values per flag set and width, thorough: 120); {c} over code-point boundaries '
+            'long long,ulong long (quick: 24 (type, value, width) draws per flag set, thorough: 160); {c} over code-point boundaries '
             '0,7F,80,7FF,800,D7FF,D800,DFFF,E000,FFFF,10000,10FFFF,110000,-1,min,max,2^32+0x41 for every integer type, char, '
             'wchar_t, char32_t, plus padded {c} (documented abort); text of length 0..6 (ASCII and multi-byte) x precision '
             '{none,0,len-1,len,len+1} x width {0,len-1,len,len+1,40} x alignment x pad for const char*, ST::string, '
@@ -51,7 +51,7 @@ class C11(vlib.Check):
 
     def gen(self, rng, tier):
         quick = tier == 'quick'
-        per = 10 if quick else 120
+        per = 24 if quick else 160
         pool = {}
         for tok, (sg, bits) in INT_TYPES.items():
             pool[tok] = int_values(sg, bits)
